@@ -83,11 +83,24 @@ type Node struct {
 	Store   *Store // default graphsync store
 	ChStore *Store // per-channel store (when configured)
 
-	mu     sync.Mutex
-	Events []Ev
+	mu      sync.Mutex
+	Events  []Ev
+	stopped bool
 }
 
 func (n *Node) ID() peer.ID { return n.Host.ID() }
+
+// StopOnce stops the manager (idempotent for the harness).
+func (n *Node) StopOnce() {
+	n.mu.Lock()
+	if n.stopped {
+		n.mu.Unlock()
+		return
+	}
+	n.stopped = true
+	n.mu.Unlock()
+	_ = n.Mgr.Stop(context.Background())
+}
 
 func (n *Node) EventsOf(chid datatransfer.ChannelID) []Ev {
 	n.mu.Lock()
@@ -206,8 +219,8 @@ func (w *World) Close() {
 		}
 		mc.Wait()
 	}
-	_ = w.A.Mgr.Stop(context.Background())
-	_ = w.B.Mgr.Stop(context.Background())
+	w.A.StopOnce()
+	w.B.StopOnce()
 	w.A.gsStop()
 	w.B.gsStop()
 	_ = w.Mn.Close()
